@@ -5,6 +5,8 @@ package main
 // suite "forced" (correspondence + e2e on the same runs): schedules are forced on the REAL cache
 // (c14_world.go), the observed trace is checked for inclusion in the Lean LTS (`sc.check`), and the property
 // itself is judged on the observations without the model (c14Judge).
+// suite "pool" (e2e, c14_pool.go): the forced world with MaxOpenConns = 1, deadlock oracle only.
+// Hanging caches: see "bail-outs" below (exact deadlock detection, hang counter, shortened timeout, abandon()).
 // suite "gorm" (e2e): real gorm.Open / Session(PrepareStmt) on SQLite behind the recording driver: sequential
 // and free-running concurrent use against the non-prepared reference, Reset/Close, open statements after Close.
 
@@ -12,8 +14,10 @@ import (
 	"encoding/json"
 	"fmt"
 	"math/rand"
+	"runtime"
 	"sort"
 	"strings"
+	"sync/atomic"
 	"time"
 )
 
@@ -25,15 +29,19 @@ type c14Step struct {
 }
 
 type c14Run struct {
-	NV      int        `json:"nv"`
-	Ops     []c14Op    `json:"ops"`
-	Steps   []c14Step  `json:"steps"`
-	Results []string   `json:"results"`
-	Closed  []bool     `json:"closed"`
-	HTx     []bool     `json:"htx"`
-	Preps   []int      `json:"preps"`
-	Hang    bool       `json:"hang"`
-	Events  []c14Event `json:"events"`
+	NV      int       `json:"nv"`
+	Ops     []c14Op   `json:"ops"`
+	Steps   []c14Step `json:"steps"`
+	Results []string  `json:"results"`
+	Closed  []bool    `json:"closed"`
+	HTx     []bool    `json:"htx"`
+	Preps   []int     `json:"preps"`
+	Hang    bool      `json:"hang"`
+	// quiescent = exact: no goroutine can run, nothing is parked, an operation has not returned (a deadlock);
+	// timeout = the process did not become quiescent within the settle timeout (load-dependent: re-confirmed)
+	HangKind string     `json:"hang_kind,omitempty"`
+	MaxOpen  int        `json:"max_open,omitempty"` // database/sql pool limit of the world (suite "pool"), 0 = unlimited
+	Events   []c14Event `json:"events"`
 	// after the schedule: Close on every struct + drain
 	OpenDriverStmts int   `json:"open_driver_stmts_after_close"`
 	OpenHandles     []int `json:"open_handles_after_close"`
@@ -47,6 +55,9 @@ func c14NQ(ops []c14Op) int {
 		if o.Text+1 > n {
 			n = o.Text + 1
 		}
+		if o.Kind == "tx2" && o.Text+3 > n { // second statement of the transaction: text+2
+			n = o.Text + 3
+		}
 	}
 	return n
 }
@@ -57,13 +68,36 @@ type c14Choice struct {
 	Ans  string
 }
 
+// ---- bail-outs of the forced suites against a cache whose goroutines hang ----
+//
+// A deadlock is detected exactly and at once (quiescent process, nothing parked, an operation not returned); only a
+// livelock / an overloaded machine costs the settle timeout.  After the first confirmed hang the timeout is
+// shortened, later hangs are no longer re-confirmed, and after c14MaxHangs confirmed hangs the rest of the forced
+// schedules (exhaustive and random) is skipped: one reproducible hang already is the violation.
+const c14MaxHangs = 3
+
+var c14ForcedHangs int // confirmed hangs of forced worlds in this process
+
+func c14SettleTimeout() time.Duration {
+	if c14ForcedHangs > 0 {
+		return 500 * time.Millisecond
+	}
+	return 3 * time.Second
+}
+
+func c14ForcedBail() bool { return c14ForcedHangs >= c14MaxHangs }
+
 // c14Execute runs one adaptive forced schedule; pick(i, choices) selects the i-th decision.
 func c14Execute(nV int, ops []c14Op, useErrAns bool, pick func(i int, ch []c14Choice) int) *c14Run {
-	w := newC14World(nV, ops, true)
-	run := &c14Run{NV: nV, Ops: ops}
-	timeout := 3 * time.Second
+	return c14ExecutePool(nV, ops, 0, useErrAns, pick)
+}
+
+func c14ExecutePool(nV int, ops []c14Op, maxOpen int, useErrAns bool, pick func(i int, ch []c14Choice) int) *c14Run {
+	w := newC14WorldPool(nV, ops, true, maxOpen)
+	run := &c14Run{NV: nV, Ops: ops, MaxOpen: maxOpen}
+	timeout := c14SettleTimeout()
 	if !c14Settle(timeout) {
-		run.Hang = true
+		run.Hang, run.HangKind = true, "timeout"
 	}
 	for i := 0; !run.Hang; i++ {
 		var ch []c14Choice
@@ -96,13 +130,15 @@ func c14Execute(nV int, ops []c14Op, useErrAns bool, pick func(i int, ch []c14Ch
 			w.release(c.T, c.Ans)
 		}
 		if !c14Settle(timeout) {
-			run.Hang = true
+			run.Hang, run.HangKind = true, "timeout"
+			run.Steps = append(run.Steps, c14Step{c.Kind, c.T, c.Ans, w.gateList()}) // the replay needs the step that did not settle
 			break
 		}
 		run.Steps = append(run.Steps, c14Step{c.Kind, c.T, c.Ans, w.gateList()})
 	}
 	if !run.Hang && !w.allDone() {
-		run.Hang = true // nothing parked, nothing runnable, but an operation has not returned
+		// nothing parked, nothing runnable, but an operation has not returned
+		run.Hang, run.HangKind = true, "quiescent"
 	}
 	w.mu.Lock()
 	run.Results = append([]string(nil), w.results...)
@@ -113,19 +149,21 @@ func c14Execute(nV int, ops []c14Op, useErrAns bool, pick func(i int, ch []c14Ch
 	copy(run.Preps, w.preps)
 	w.mu.Unlock()
 	run.Closed = w.closedFlags()
-	if !run.Hang {
-		for _, v := range w.views {
-			v.Close()
-		}
-		c14Settle(timeout)
-		for i, c := range w.closedFlags() {
-			if !c {
-				run.OpenHandles = append(run.OpenHandles, i)
-			}
-		}
-		run.OpenDriverStmts = int(w.openDrv)
-		w.sqlDB.Close()
+	if run.Hang {
+		w.abandon() // release what is parked, close from a helper goroutine; never wait for this world again
+		return run
 	}
+	for _, v := range w.views {
+		v.Close()
+	}
+	c14Settle(timeout)
+	for i, c := range w.closedFlags() {
+		if !c {
+			run.OpenHandles = append(run.OpenHandles, i)
+		}
+	}
+	run.OpenDriverStmts = int(atomic.LoadInt64(&w.openDrv))
+	w.sqlDB.Close()
 	return run
 }
 
@@ -157,7 +195,7 @@ type c14Verdict struct {
 func c14Judge(run *c14Run) []c14Verdict {
 	var out []c14Verdict
 	if run.Hang {
-		return []c14Verdict{{"hang", "an operation did not return although every parked driver call was released", ""}}
+		return []c14Verdict{{"hang", c14HangDetail(run), ""}}
 	}
 	idx := func(t int, what string) int {
 		for i, e := range run.Events {
@@ -302,6 +340,13 @@ func c14Judge(run *c14Run) []c14Verdict {
 	return out
 }
 
+func c14HangDetail(run *c14Run) string {
+	if run.HangKind == "timeout" {
+		return "the goroutines did not come to rest within the settle timeout after a start/release (busy goroutine or livelock)"
+	}
+	return "an operation did not return although every parked driver call was released"
+}
+
 // ---- configurations ----
 
 func c14Configs() (out []struct {
@@ -378,20 +423,15 @@ func c14Record(r *Result, suite string, run *c14Run) {
 	}
 }
 
-func c14Report(r *Result, suite string, run *c14Run) {
-	for _, v := range c14Judge(run) {
+func c14Report(r *Result, suite string, run *c14Run) { c14ReportV(r, suite, run, c14Judge(run)) }
+
+func c14ReportV(r *Result, suite string, run *c14Run, verdicts []c14Verdict) {
+	for _, v := range verdicts {
 		if v.What == "hang" {
-			// re-run the same choices alone 3x; only a reproducible hang counts
-			rep := 0
-			for k := 0; k < 3; k++ {
-				if c14Replay(run).Hang {
-					rep++
-				}
-			}
-			if rep < 3 {
-				r.Note("transient timeout (%d/3 on re-run) ignored: %s", rep, canon(run.Ops))
+			if !c14ConfirmHang(r, run) {
 				continue
 			}
+			v.Detail += " [" + run.HangKind + "]"
 		}
 		if v.Finding != "" && listed(v.Finding) {
 			r.KnownFinding(v.Finding, v.What+": "+v.Detail)
@@ -401,8 +441,38 @@ func c14Report(r *Result, suite string, run *c14Run) {
 	}
 }
 
+// c14ConfirmHang decides whether a hanging run counts.  The first one is re-run alone 3x and counts only when it
+// hangs every time (a loaded machine can exceed the settle timeout once); once a hang is confirmed the cache is known
+// to be broken and further hangs are counted as they come (no 3x re-run, the shortened timeout applies).
+func c14ConfirmHang(r *Result, run *c14Run) bool {
+	r.H("c14.hang", run.HangKind)
+	if c14ForcedHangs == 0 {
+		rep := 0
+		for k := 0; k < 3; k++ {
+			if !c14Replay(run).Hang {
+				break
+			}
+			rep++
+		}
+		if rep < 3 {
+			r.Note("transient %s hang (%d/3 on re-run) ignored: %s", run.HangKind, rep, canon(run.Ops))
+			return false
+		}
+	} else if run.HangKind == "timeout" {
+		// with the shortened timeout a timeout is weak evidence: one re-run must agree
+		if !c14Replay(run).Hang {
+			return false
+		}
+	}
+	c14ForcedHangs++
+	if c14ForcedHangs == 1 {
+		r.Note("first reproducible hang of a forced schedule (%s): settle timeout shortened to %v, further hangs are not re-confirmed 3x", run.HangKind, c14SettleTimeout())
+	}
+	return true
+}
+
 func c14Replay(run *c14Run) *c14Run {
-	return c14Execute(run.NV, run.Ops, true, func(i int, ch []c14Choice) int {
+	return c14ExecutePool(run.NV, run.Ops, run.MaxOpen, true, func(i int, ch []c14Choice) int {
 		if i < len(run.Steps) {
 			for k, c := range ch {
 				if c.Kind == run.Steps[i].Kind && c.T == run.Steps[i].T && c.Ans == run.Steps[i].Ans {
@@ -458,26 +528,42 @@ func c14Validate(r *Result, suite string, runs []*c14Run) {
 }
 
 func init() {
-	replayers["C14/forced"] = func(r *Result, input json.RawMessage) {
-		var run c14Run
-		if json.Unmarshal(input, &run) != nil {
-			return
-		}
-		for k := 0; k < 5; k++ { // some interleavings inside a wake-up are not forceable: try a few times
-			got := c14Replay(&run)
-			vs := c14Judge(got)
-			for _, v := range vs {
-				if v.Finding != "" && listed(v.Finding) {
-					r.KnownFinding(v.Finding, v.Detail)
-				} else {
-					r.Violate(Violation{Kind: "e2e", Suite: "forced", Input: got, Observed: v.Detail, Expected: "C14 " + v.What})
-				}
-			}
-			if len(vs) > 0 {
+	replay := func(suite string) func(r *Result, input json.RawMessage) {
+		return func(r *Result, input json.RawMessage) {
+			var run c14Run
+			if json.Unmarshal(input, &run) != nil {
 				return
+			}
+			for k := 0; k < 5; k++ { // some interleavings inside a wake-up are not forceable: try a few times
+				got := c14Replay(&run)
+				vs := c14Judge(got)
+				if suite == "pool" {
+					vs = c14PoolJudge(got)
+				}
+				if got.Hang && got.HangKind == "timeout" && !c14Replay(&run).Hang {
+					continue // a timeout that does not repeat is load, not a hang
+				}
+				for _, v := range vs {
+					if v.What == "hang" {
+						v.Detail += " [" + got.HangKind + "]"
+					}
+					if v.Finding != "" && listed(v.Finding) {
+						r.KnownFinding(v.Finding, v.Detail)
+					} else {
+						r.Violate(Violation{Kind: "e2e", Suite: suite, Input: got, Observed: v.Detail, Expected: "C14 " + v.What})
+					}
+				}
+				if len(vs) > 0 || got.Hang {
+					return // reproduced (a hang is never retried: the first reproduction is the answer)
+				}
+				if run.Hang && run.HangKind == "quiescent" && k >= 1 {
+					return // a deadlock is deterministic under the forced schedule: two clean re-runs are enough
+				}
 			}
 		}
 	}
+	replayers["C14/forced"] = replay("forced")
+	replayers["C14/pool"] = replay("pool")
 
 	register("C14", func(r *Result, rng *rand.Rand, tier string) {
 		budget := 22 * time.Second
@@ -503,6 +589,14 @@ func init() {
 				flush()
 			}
 		}
+		bailed := false
+		bail := func() bool {
+			if c14ForcedBail() && !bailed {
+				bailed = true
+				r.Note("forced suite: %d confirmed hangs, the remaining forced schedules (exhaustive and random) are skipped", c14ForcedHangs)
+			}
+			return c14ForcedBail()
+		}
 		// dedicated probes of the listed findings (witnesses of the Lean counterexample theorems)
 		c14Probes(r, do)
 		// exhaustive: every forced schedule of the small configurations (stateless DFS over the choice tree)
@@ -513,7 +607,7 @@ func init() {
 			start := time.Now()
 			prefix := []int{}
 			done := false
-			for !done && !expired() {
+			for !done && !expired() && !bail() {
 				if time.Since(start) > perCfg && tier != "thorough" {
 					break
 				}
@@ -543,7 +637,7 @@ func init() {
 		r.Note("exhaustive forced schedules: %d of %d configurations enumerated completely", complete, len(cfgs))
 		r.H("c14.exhaustive.complete", fmt.Sprintf("%d/%d", complete, len(cfgs)))
 		// random: up to 4 goroutines, 2 texts, 2 structs
-		for i := 0; i < nRandom && time.Since(t0) < budget && !expired(); i++ {
+		for i := 0; i < nRandom && time.Since(t0) < budget && !expired() && !bail(); i++ {
 			nv, ops := c14RandomOps(rng)
 			run := c14Execute(nv, ops, true, func(i int, ch []c14Choice) int { return rng.Intn(len(ch)) })
 			do(run)
@@ -552,6 +646,9 @@ func init() {
 			}
 		}
 		flush()
+		c14PoolSuite(r, rng, tier)
+		// the harness itself must not leak: every world is torn down (cache structs closed, pool closed)
+		r.Note("goroutines alive after the forced suite: %d", runtime.NumGoroutine())
 	})
 }
 
@@ -569,32 +666,43 @@ func c14Probes(r *Result, do func(*c14Run)) {
 			return 0
 		})
 	}
+	// a probe that hangs is reported by do(); the remaining probes still run unless the suite bailed out
 	// F14b witness 1: failed tx prepare deletes the non-tx entry that overwrote it
 	run := script(1, []c14Op{{"tx", 0, 0}, {"use", 0, 0}},
 		[]c14Choice{{"start", 0, "ok"}, {"start", 1, "ok"}, {"prep", 0, "err"}, {"prep", 1, "ok"}, {"use", 1, "ok"}})
 	do(run)
-	r.Note("probe F14b/1 (late delete after failed prepare): results=%v unclosed-after-Close=%v", run.Results, run.OpenHandles)
+	r.Note("probe F14b/1 (late delete after failed prepare): hang=%v results=%v unclosed-after-Close=%v", run.Hang, run.Results, run.OpenHandles)
+	if c14ForcedBail() {
+		return
+	}
 	// F14b witness 2: second ErrBadConn eviction deletes the re-prepared entry
 	run = script(1, []c14Op{{"use", 0, 0}, {"use", 0, 0}, {"use", 0, 0}},
 		[]c14Choice{{"start", 0, "ok"}, {"prep", 0, "ok"}, {"start", 1, "ok"}, {"use", 0, "bad"}, {"start", 2, "ok"},
 			{"prep", 2, "ok"}, {"use", 2, "ok"}, {"use", 1, "bad"}})
 	do(run)
-	r.Note("probe F14b/2 (late ErrBadConn eviction): results=%v unclosed-after-Close=%v", run.Results, run.OpenHandles)
+	r.Note("probe F14b/2 (late ErrBadConn eviction): hang=%v results=%v unclosed-after-Close=%v", run.Hang, run.Results, run.OpenHandles)
+	if c14ForcedBail() {
+		return
+	}
 	// F14a witness: Reset through a session-level struct, then use through the other struct
 	run = script(2, []c14Op{{"use", 1, 0}, {"reset", 1, 0}, {"use", 0, 0}},
 		[]c14Choice{{"start", 0, "ok"}, {"prep", 0, "ok"}, {"use", 0, "ok"}, {"start", 1, "ok"}, {"start", 2, "ok"}})
 	do(run)
-	r.Note("probe F14a (stale struct after Reset): results=%v", run.Results)
+	r.Note("probe F14a (stale struct after Reset): hang=%v results=%v", run.Hang, run.Results)
 	// F14c witness: Reset while the prepare is in flight; the closer races the preparer's own execution
-	seen := 0
-	for k := 0; k < 40 && seen == 0; k++ {
+	seen, hung := 0, false
+	for k := 0; k < 40 && seen == 0 && !c14ForcedBail(); k++ {
 		run = script(1, []c14Op{{"use", 0, 0}, {"use", 0, 0}, {"reset", 0, 0}},
 			[]c14Choice{{"start", 0, "ok"}, {"start", 1, "ok"}, {"start", 2, "ok"}, {"prep", 0, "ok"}, {"use", 0, "ok"}, {"use", 1, "ok"}})
 		do(run)
+		if run.Hang {
+			hung = true // never loop over a hanging probe
+			break
+		}
 		if run.Results[0] == "stmtClosed" || run.Results[1] == "stmtClosed" {
 			seen = k + 1
 		}
 	}
-	r.Note("probe F14c (Reset closes a statement its preparer is about to execute): reproduced at attempt %d (0 = not in 40 attempts)", seen)
+	r.Note("probe F14c (Reset closes a statement its preparer is about to execute): reproduced at attempt %d (0 = not in 40 attempts) hang=%v", seen, hung)
 	_ = sort.Ints
 }
